@@ -151,6 +151,12 @@ class Solver(ABC):
         else:
             self.config = self.Config(**kwargs)
 
+        # Set up precision first so that everything created below (the problem when it is
+        # built from its config, the discount factor) already uses it
+        self.jax_double_precision = self.config.jax_double_precision
+        if self.jax_double_precision:
+            jax.config.update("jax_enable_x64", True)
+
         # Handle problem instance vs config
         if problem is not None:
             # If given a Problem instance directly, store
@@ -165,14 +171,9 @@ class Solver(ABC):
             self.problem = instantiate(self.config.problem)
 
         # Store core attributes
-        self.gamma = jnp.array(self.config.gamma)
+        self.gamma = jnp.array(self.config.gamma, dtype=float)
         self.epsilon = self.config.epsilon
         self.max_batch_size = self.config.max_batch_size
-
-        # Set up precision
-        self.jax_double_precision = self.config.jax_double_precision
-        if self.jax_double_precision:
-            jax.config.update("jax_enable_x64", True)
 
         # Set up logging
         self.set_verbosity(self.config.verbose)
